@@ -63,6 +63,11 @@ func (s *scOps) Configure(w *World) {
 	s.behaviour = Pick(t, opBehaviours, nil)
 	s.target = t.Draw(2, nil)
 	c.Extra["op"], c.Extra["behaviour"] = s.ops[0], s.behaviour
+	if t.Draw(3, nil) == 0 {
+		// the goroutine that issued the operation is pre-empted before it waits for the completion: the reply
+		// may be processed first ("completion and waiter in either order")
+		c.YieldSites = map[string]bool{"asyncop.wait": true}
+	}
 	w.buildCluster()
 	w.cl.collections["s1.c1"] = 8
 	s.state = "idle"
